@@ -104,3 +104,11 @@ PROPS['C16'] = dict(
     level_note='Trusted: Coq kernel, extraction, harness. Readers are drained (fully, partly, not at all) before the next accessor call - a reader kept and used after a later call is outside the statement. warc-fields and revisit blocks are constant blocks (checked by correspondence as cached blocks; PayloadDigest of a revisit block is a stored string and is exercised in C20). Hash functions and base32/64 decoders are oracles.',
     assumptions=['readers are drained to the stated extent before the next accessor call'],
 )
+
+PROPS['C02'] = dict(
+    id='C02',
+    domains=['build'],
+    n=dict(quick=3000, thorough=120000),
+    theorems=[('Properties.C02', [])],
+    rule='TODO', level_text='TODO', level_note='TODO',
+)
